@@ -506,7 +506,15 @@ def build_irispie_model(M, nv, seed, reverse=False):
 def build_plan(m, M, plan, span):
     p = ir.SimulationPlan(m, span)
     kw = {"name_format": plan["nf"]} if plan.get("nf") else {}
-    for j, dates, ptr, wd in plan["entries"]:
+    ents = plan["entries"]
+    if plan.get("joint") and len(ents) >= 2 and all(e[1:] == ents[0][1:] for e in ents):
+        # ONE exogenize call naming all the variables (same dates, transform, when_data)
+        j0, dates, ptr, wd = ents[0]
+        names = [M.names[e[0]] for e in ents]
+        p.exogenize(tuple(START + t for t in dates), names if plan["joint"] == "list" else tuple(names),
+                    transform=(None if ptr == "none" else ptr), when_data=bool(wd), **kw)
+        return p
+    for j, dates, ptr, wd in ents:
         p.exogenize(tuple(START + t for t in dates), M.names[j],
                     transform=(None if ptr == "none" else ptr), when_data=bool(wd), **kw)
     return p
@@ -548,8 +556,8 @@ def run_case(M, m, case, res, ctx_seed):
     span = START >> (START + T - 1)
     db = None
     outs = {}
-    ckey = "%s#%r#%s#%d#%d#%s#%r#%r" % (M.key(), None if not plan else (plan["entries"], plan.get("present"), plan.get("nf")), resmode, nv, prepend,
-                                           "reversed" if case.get("reverse") else "", case.get("zero_at"), pardb)
+    ckey = "%s#%r#%s#%d#%d#%s#%r#%r#%r" % (M.key(), None if not plan else (plan["entries"], plan.get("present"), plan.get("nf"), plan.get("joint")), resmode, nv, prepend,
+                                              "reversed" if case.get("reverse") else "", case.get("zero_at"), pardb, case.get("target"))
     seen = res.__dict__.setdefault("_c17_seen", set())
 
     def cls_once(name, value):
@@ -592,6 +600,9 @@ def run_case(M, m, case, res, ctx_seed):
                 kw["plan"] = plan_obj
             if not prepend:
                 kw["prepend_input"] = False
+            if case.get("target") == "input":
+                kw["target_db"] = db
+                res.count("runs_returned_through_target_db")
             out = m.simulate(db, span, execution_order=order, when_simulates_nan="silent", **kw)
         except Exception as e:          # every case of the space is a defined simulation
             bad("simulate_exception", "%s: %s" % (type(e).__name__, str(e)[:300]), error=type(e).__name__)
@@ -805,7 +816,7 @@ def model_cases(spec, nvs=(1,), pardb_product=True):
         cases.append(dict(plan=None, resmode="nonzero", nv=nv, prepend=True))
         sp = std_plan(spec)
         if sp:
-            cases.append(dict(plan=sp, resmode="std", nv=nv, prepend=(nv == 2)))
+            cases.append(dict(plan=sp, resmode="std", nv=nv, prepend=(nv == 2), target="input"))
         if has_parameters(spec):
             # the same inputs with an old calibration left in the databox under the parameters' names
             for kind in pardb_kinds(nv):
@@ -971,6 +982,13 @@ def plan_cases_two(ptr, wd, nv, prepend):
             for resmode in ("zero", "nonzero"):
                 out.append(dict(plan=dict(entries=[[0, d0, ptr, wd], [1, d1, ptr, wd]], present=None),
                                 resmode=resmode, nv=nv, prepend=prepend))
+    # both variables on the same dates through ONE exogenize call (names as a list / as a tuple), and the same runs
+    # returned through target_db = the input databox (which holds items under every name the simulation writes)
+    for d0 in WINDOW_SUBSETS:
+        for resmode in ("zero", "nonzero"):
+            for joint in ("list", "tuple"):
+                out.append(dict(plan=dict(entries=[[0, d0, ptr, wd], [1, d0, ptr, wd]], present=None, joint=joint),
+                                resmode=resmode, nv=nv, prepend=prepend, target=("input" if joint == "tuple" else None)))
     # a listed set of pairs again with the plan data in differently named series / with an old calibration in the databox
     for d0, d1 in TWO_EXTRA_DATES:
         for resmode in ("zero", "nonzero"):
@@ -1121,6 +1139,7 @@ def run(ctx, total, info):
     }
     required = QUICK_FLOORS if quick else THOROUGH_FLOORS
     info["floors"] = {k: (measured[k], required[k]) for k in required}
+    info["floors"]["runs_returned_through_target_db"] = (c["runs_returned_through_target_db"], 4000)
     info["floors"]["models_reversed_then_sequentialized"] = (c["models_built_reversed_then_sequentialized"], 2500 if quick else 20000)
 
 
@@ -1163,7 +1182,7 @@ THOROUGH_FLOORS = {     # measured: 914 748 evaluations, 51 524 models, 647 202 
 def replay(case):
     res = engine.Result()
     seed = int(case.get("seed", 0))
-    c = {k: case[k] for k in ("plan", "resmode", "nv", "prepend", "reverse", "zero_at", "pardb", "observe_pfd") if k in case}
+    c = {k: case[k] for k in ("plan", "resmode", "nv", "prepend", "reverse", "zero_at", "pardb", "observe_pfd", "target") if k in case}
     if "orders" in case:
         c["orders"] = case["orders"]
     run_model_cases(case["model"], [c], res, seed)
